@@ -51,12 +51,22 @@ def log(*a):
 
 def build(prop, race=False):
     """Build the test binary from /repo's current working tree (replace directive) with the verif tag."""
-    out_dir = os.path.join(ROOT, ".build", prop + ("-race" if race else ""))
+    tag = "" if REPO == "/repo" else "-" + hashlib.sha1(REPO.encode()).hexdigest()[:8]
+    out_dir = os.path.join(ROOT, ".build", prop + ("-race" if race else "") + tag)
     os.makedirs(out_dir, exist_ok=True)
     binp = os.path.join(out_dir, "props.test")
     cmd = ["go", "test", "-c", "-tags", "verif", "-vet=off", "-o", binp]
     if race:
         cmd.append("-race")
+    if REPO != "/repo":
+        # self-test against a scratch copy of the repository: same harness, different replace target
+        with open(os.path.join(ROOT, "go.mod")) as f:
+            gm = f.read().replace("=> /repo", "=> " + REPO)
+        mf = os.path.join(out_dir, "go.mod")
+        with open(mf, "w") as f:
+            f.write(gm)
+        shutil.copy(os.path.join(ROOT, "go.sum"), os.path.join(out_dir, "go.sum"))
+        cmd.append("-modfile=" + mf)
     cmd.append("./props")
     t0 = time.time()
     r = subprocess.run(cmd, cwd=ROOT, env=env_base(), stdout=subprocess.PIPE, stderr=subprocess.STDOUT, text=True)
@@ -174,11 +184,14 @@ def write_evidence(prop, tier, seed, ev, wall, nviol, known_lines, inconclusive=
         cov["inconclusive"] = inconclusive
     doc = dict(property_id=prop, tier=tier, seed=int(seed), level="exploration", coverage=cov,
                assumptions=meta.get("assumptions", []), wall_s=round(wall, 2), violations=int(nviol))
-    os.makedirs(os.path.join(ROOT, "evidence"), exist_ok=True)
-    tmp = os.path.join(ROOT, "evidence", "." + prop + ".json.tmp")
+    evdir = os.environ.get("VERIF_EVIDENCE_DIR") or os.path.join(ROOT, "evidence")
+    if REPO != "/repo" and not os.environ.get("VERIF_EVIDENCE_DIR"):
+        evdir = os.path.join(ROOT, ".build", "selftest-evidence")
+    os.makedirs(evdir, exist_ok=True)
+    tmp = os.path.join(evdir, "." + prop + ".json.tmp")
     with open(tmp, "w") as f:
         json.dump(doc, f, indent=1, sort_keys=False, default=str)
-    os.replace(tmp, os.path.join(ROOT, "evidence", prop + ".json"))
+    os.replace(tmp, os.path.join(evdir, prop + ".json"))
 
 
 def keep_replay(prop, path):
